@@ -224,6 +224,25 @@ func run(args []string) error {
 				}
 			}
 			t = w.Spend(ins, headTime, nk.SpendOpts{Fee: "min", NOut: 1 + r.Intn(3)})
+			if b%3 == 0 && k == 0 {
+				// scripted: a transaction paying TWO outputs to ONE address (the per-address
+				// output index must list both)
+				for try := 0; try < 40; try++ {
+					seen := map[cipher.Address]bool{}
+					dup := false
+					for _, o := range t.Out {
+						if seen[o.Address] {
+							dup = true
+						}
+						seen[o.Address] = true
+					}
+					if dup {
+						hist.Add("life:two-outputs-one-address")
+						break
+					}
+					t = w.Spend(ins, headTime, nk.SpendOpts{Fee: "min", NOut: 3})
+				}
+			}
 			if _, _, err := pub.V.InjectForeignTransaction(t); err != nil {
 				return fmt.Errorf("publisher inject: %v", err)
 			}
